@@ -51,6 +51,9 @@ type vTrigScenario struct {
 	pulses      []int
 	f0          *FrameIndex // frame number of the first sample (nil: 1000)
 	slow        []int       // start samples of slow pulses: they cross the level threshold without meeting the edge criterion
+	pulses2     []int       // non-nil: a third channel with the same trigger settings as channel 0, its own pulses, no group connection
+	npre2       int         // lengths requested by the lengths-change history (0: npre+1, nsamp+2)
+	nsamp2      int
 	L           int
 	truth       [][]RawType
 	vals        []int // channel 0 as integers (signed or unsigned interpretation)
@@ -83,11 +86,27 @@ func vFromRaw(r RawType, signed bool) int {
 
 // vMakeTruth builds two channels of position-dependent data; channel 0 carries the pulses.
 func vMakeTruth(L int, signed bool, sign int, pulses []int, slow ...int) [][]RawType {
-	truth := make([][]RawType, 2)
-	for ch := 0; ch < 2; ch++ {
+	return vMakeTruth3(L, signed, sign, pulses, nil, slow...)
+}
+
+// vMakeTruth3: with pulses2 != nil a third channel carries pulses of its own.
+func vMakeTruth3(L int, signed bool, sign int, pulses, pulses2 []int, slow ...int) [][]RawType {
+	nch := 2
+	if pulses2 != nil {
+		nch = 3
+	}
+	truth := make([][]RawType, nch)
+	for ch := 0; ch < nch; ch++ {
 		truth[ch] = make([]RawType, L)
 		for f := 0; f < L; f++ {
 			v := vBase(signed, sign) + vRipple(f, ch)
+			if ch == 2 {
+				for _, p := range pulses2 {
+					if a := 400 - 30*(f-p); f >= p && a > 0 {
+						v += sign * a
+					}
+				}
+			}
 			if ch == 0 {
 				for _, p := range pulses {
 					if f >= p {
@@ -168,7 +187,11 @@ func (sc *vTrigScenario) prepareViper() {
 	}
 	sc.cfgFile = filepath.Join(dir, "tmp", "restored_config.yaml")
 	os.MkdirAll(filepath.Dir(sc.cfgFile), 0755)
-	viper.Set("trigger", []FullTriggerState{{ChannelIndices: []int{0}, TriggerState: sc.cfg.ts}})
+	idx := []int{0}
+	if sc.pulses2 != nil {
+		idx = []int{0, 2}
+	}
+	viper.Set("trigger", []FullTriggerState{{ChannelIndices: idx, TriggerState: sc.cfg.ts}})
 	if err := viper.WriteConfigAs(sc.cfgFile); err != nil {
 		panic(err)
 	}
@@ -233,17 +256,21 @@ func (sc *vTrigScenario) execute(x *vexp.X, bounds []int) *vTrigRun {
 		vF0 = *sc.f0
 	}
 	run := &vTrigRun{sc: sc, bounds: bounds}
-	src := vNewSource(2, sc.npre, sc.nsamp)
+	nch := len(sc.truth)
+	src := vNewSource(nch, sc.npre, sc.nsamp)
 	defer src.close()
 	ds := src.ds
-	run.recs = make([][]*DataRecord, 2)
-	run.recBlock = make([][]int, 2)
+	run.recs = make([][]*DataRecord, nch)
+	run.recBlock = make([][]int, nch)
 	// channel 1 receives group triggers from channel 0
 	if err := ds.ChangeGroupTrigger(true, &GroupTriggerState{Connections: map[int][]int{0: {1}}}); err != nil {
 		run.err = err
 		return run
 	}
 	full := &FullTriggerState{ChannelIndices: []int{0}, TriggerState: sc.cfg.ts}
+	if nch > 2 {
+		full.ChannelIndices = []int{0, 2}
+	}
 	npre, nsamp := sc.npre, sc.nsamp
 	switch sc.ctrl {
 	case vCtrlRestored:
@@ -274,6 +301,9 @@ func (sc *vTrigScenario) execute(x *vexp.X, bounds []int) *vTrigRun {
 				run.epochs = append(run.epochs, vEpoch{1, sc.cfg.ts, npre, nsamp})
 			case vCtrlLengthsChange:
 				npre, nsamp = npre+1, nsamp+2
+				if sc.nsamp2 > 0 {
+					npre, nsamp = sc.npre2, sc.nsamp2
+				}
 				if err := ds.ConfigurePulseLengths(nsamp, npre); err != nil {
 					run.err = err
 					return run
@@ -288,7 +318,7 @@ func (sc *vTrigScenario) execute(x *vexp.X, bounds []int) *vTrigRun {
 			return run
 		}
 		run.delivered = append(run.delivered, bounds[b+1])
-		for ch := 0; ch < 2; ch++ {
+		for ch := 0; ch < nch; ch++ {
 			for _, r := range src.drain(ch) {
 				run.recs[ch] = append(run.recs[ch], r)
 				run.recBlock[ch] = append(run.recBlock[ch], b)
@@ -305,14 +335,14 @@ func (run *vTrigRun) checkExcerpts() (viol, class string, straddles int) {
 	if run.err != nil {
 		return "driver step failed: " + run.err.Error(), "driver-error", 0
 	}
-	for ch := 0; ch < 2; ch++ {
+	for ch := range run.recs {
 		for i, r := range run.recs[ch] {
 			b := run.recBlock[ch][i]
 			e := run.epochOfBlock(b)
 			f := int(r.trigFrame - vF0)
 			n := len(r.data)
 			pre := r.presamples
-			variable := e.ts.EdgeMulti && e.ts.EMTState.mode == EMTRecordsVariableLength && ch == 0
+			variable := e.ts.EdgeMulti && e.ts.EMTState.mode == EMTRecordsVariableLength && ch != 1
 			where := fmt.Sprintf("ch%d record #%d (trigger sample %d, emitted in block %d [%d,%d))", ch, i, f, b, run.bounds[b], run.bounds[b+1])
 			if !variable {
 				if n != e.nsamp || pre != e.npre {
@@ -399,6 +429,14 @@ func (run *vTrigRun) checkCriteria() (viol, class string, nearCut int) {
 		}
 		rangeLo := run.bounds[e.startBlock] + e.npre
 		rangeHi := run.delivered[lastBlock] - (e.nsamp - e.npre) - 1 // inclusive
+		if ei > 0 && (sc.ctrl == vCtrlLengthsSame || sc.ctrl == vCtrlLengthsChange) {
+			// ConfigurePulseLengths leaves the trigger settings as they were: the samples of the previous block that
+			// were not yet decidable under the old lengths (its last nsamp-npre samples) must not be lost either
+			p := &run.epochs[ei-1]
+			if lo := vMax(run.delivered[e.startBlock-1]-(p.nsamp-p.npre), run.bounds[0]+e.npre); lo < rangeLo {
+				rangeLo = lo
+			}
+		}
 		var mine []trig
 		for _, t := range trigs {
 			if t.block >= e.startBlock && t.block <= lastBlock {
@@ -540,6 +578,15 @@ func vTrigCases(r *vexp.Runner, withEMT bool, each func(id string, sc *vTrigScen
 							each(id+"/frame0=0", sc0)
 						}
 					}
+					// a third channel with the same settings and pulses of its own, at other times than channel 0's (channel 1
+					// still receives channel 0's group triggers): blocks in which only one of the two has primaries
+					if ctrl == vCtrlBefore || (ctrl == vCtrlRestored && !cfg.emt) {
+						early, late := g.npre+1, L-g.nsamp+g.npre-1
+						for _, pp := range [][2][]int{{{early}, {late}}, {{late}, {early}}, {{mid}, {early, late}}, {{early, late}, {mid}}} {
+							sc := &vTrigScenario{npre: g.npre, nsamp: g.nsamp, signed: signed, cfg: cfg, ctrl: ctrl, pulses: pp[0], pulses2: pp[1], L: L}
+							each(fmt.Sprintf("n%d-%d/signed=%v/%s/%s/pulses=%v/ch2pulses=%v", g.npre, g.nsamp, signed, cfg.name, vCtrlNames[ctrl], pp[0], pp[1]), sc)
+						}
+					}
 					// level-trigger configurations: fast pulses (edge + level) followed by a slow, level-only pulse at
 					// every offset from "inside the second pulse" to "two records after it" (the level scan has to find
 					// its way through the dead times of one or two edge triggers)
@@ -568,10 +615,29 @@ func vTrigCases(r *vexp.Runner, withEMT bool, each func(id string, sc *vTrigScen
 			}
 		}
 	}
+	vTrigLengthCases(withEMT, each)
+}
+
+// vTrigLengthCases: ConfigurePulseLengths that changes the record length by a large factor after the first block
+// (long records -> short ones and back): the unexamined tail of the old length is longer than the history the new
+// length retains, and vice versa.
+func vTrigLengthCases(withEMT bool, each func(id string, sc *vTrigScenario)) {
+	for _, ch := range []struct{ a, b vGeom }{{vGeom{4, 34}, vGeom{3, 5}}, {vGeom{3, 5}, vGeom{4, 30}}, {vGeom{8, 30}, vGeom{3, 9}}} {
+		L := 2*vMax(ch.a.nsamp, ch.b.nsamp) + 14
+		for _, signed := range []bool{false, true} {
+			for _, cfg := range vTrigConfigs(signed, withEMT) {
+				for _, ps := range [][]int{{30}, {30, 37}, {24, 55}} {
+					sc := &vTrigScenario{npre: ch.a.npre, nsamp: ch.a.nsamp, npre2: ch.b.npre, nsamp2: ch.b.nsamp, signed: signed, cfg: cfg,
+						ctrl: vCtrlLengthsChange, pulses: ps, L: L}
+					each(fmt.Sprintf("n%d-%d->n%d-%d/signed=%v/%s/%s/pulses=%v", ch.a.npre, ch.a.nsamp, ch.b.npre, ch.b.nsamp, signed, cfg.name, vCtrlNames[sc.ctrl], ps), sc)
+				}
+			}
+		}
+	}
 }
 
 func (sc *vTrigScenario) build() {
-	sc.truth = vMakeTruth(sc.L, sc.signed, sc.cfg.pulseSign, sc.pulses, sc.slow...)
+	sc.truth = vMakeTruth3(sc.L, sc.signed, sc.cfg.pulseSign, sc.pulses, sc.pulses2, sc.slow...)
 	sc.vals = make([]int, sc.L)
 	for i, v := range sc.truth[0] {
 		sc.vals[i] = vFromRaw(v, sc.signed)
